@@ -25,6 +25,7 @@ type boxOp struct {
 	ID    int    `json:"id"`
 	Src   int    `json:"src"`
 	Topic string `json:"topic"`
+	Ack   bool   `json:"ack"` // the handler acknowledges this message: Box.Send on the same topic from inside the session lock
 }
 
 type boxScenario struct {
@@ -39,7 +40,7 @@ type boxJob struct {
 	Workers   int           `json:"workers"`
 }
 
-var boxPark = map[string]bool{"started": true, "forward": true, "mark": true, "lookup": true, "create": true, "add": true, "send": true, "fwdsend": true, "gcmark": true, "gcsweep": true}
+var boxPark = map[string]bool{"decide": true, "forward": true, "hlock": true, "send": true, "fwdsend": true, "next": true, "gcmark": true, "gcsweep": true}
 
 type boxThread struct {
 	name   string
@@ -93,7 +94,14 @@ func boxReplay(ti int, sc boxScenario, path []string) []obj {
 	for _, tp := range sc.Topics {
 		topicName[string(topicBytes(tp))] = tp
 	}
-	box := &msg.Box{
+	// the handler stands for the dispatcher of threshold.Scheme: for a message flagged "a" it takes the lock of the topic's session
+	// (as threadSafeRBC does), records the message and acknowledges it with a Send on the same topic from inside the lock
+	hlocks := map[string]*sync.Mutex{}
+	for _, tp := range sc.Topics {
+		hlocks[string(topicBytes(tp))] = &sync.Mutex{}
+	}
+	var box *msg.Box
+	box = &msg.Box{
 		Logger:                    scripted.Logger{},
 		MaxInFlightTopicsBySender: 10000,
 		GCSweep:                   20 * time.Second,
@@ -105,10 +113,23 @@ func boxReplay(ti int, sc boxScenario, path []string) []obj {
 			mu.Unlock()
 		},
 		MessageHandler: handlerFunc(func(m *tss.IncMessage) {
-			id, _ := strconv.Atoi(string(m.Data))
+			id, ack := boxMsgID(string(m.Data))
+			if !ack {
+				mu.Lock()
+				handed = append(handed, id)
+				mu.Unlock()
+				return
+			}
+			if f := msg.VerifYield; f != nil {
+				f("hlock")
+			}
+			hl := hlocks[string(m.Topic)]
+			hl.Lock()
+			defer hl.Unlock()
 			mu.Lock()
 			handed = append(handed, id)
 			mu.Unlock()
+			box.Send(uint8(tss.MsgTypeMPC), m.Topic, []byte("ack"))
 		}),
 	}
 	defer func() {
@@ -139,7 +160,7 @@ func boxReplay(ti int, sc boxScenario, path []string) []obj {
 			}()
 			for _, op := range ops {
 				if op.K == "recv" {
-					box.HandleMessage(&tss.IncMessage{Data: []byte(strconv.Itoa(op.ID)), Source: uint16(op.Src), MsgType: uint8(tss.MsgTypeMPC), Topic: topicBytes(op.Topic)})
+					box.HandleMessage(&tss.IncMessage{Data: []byte(boxMsgData(op)), Source: uint16(op.Src), MsgType: uint8(tss.MsgTypeMPC), Topic: topicBytes(op.Topic)})
 				} else {
 					box.Send(uint8(tss.MsgTypeMPC), topicBytes(op.Topic), []byte("out"))
 				}
@@ -155,16 +176,23 @@ func boxReplay(ti int, sc boxScenario, path []string) []obj {
 			return append(lines, obj{"t": ti, "e": "end", "hung": true, "panic": "", "where": "start of " + name})
 		}
 	}
-	snapshot := func() (pend []obj, started []string, infl [][]interface{}) {
+	snapshot := func() (pend, hand []obj, started []string, infl [][]interface{}) {
 		s := box.VerifSnapshot()
 		for _, tp := range sc.Topics {
 			l, ok := s.Pending[string(topicBytes(tp))]
 			ids := []int{}
 			for _, d := range l {
-				id, _ := strconv.Atoi(d)
+				id, _ := boxMsgID(d)
 				ids = append(ids, id)
 			}
 			pend = append(pend, obj{"t": tp, "has": ok, "ids": ids})
+			l, ok = s.HandOver[string(topicBytes(tp))]
+			ids = []int{}
+			for _, d := range l {
+				id, _ := boxMsgID(d)
+				ids = append(ids, id)
+			}
+			hand = append(hand, obj{"t": tp, "has": ok, "ids": ids})
 			if _, ok := s.Started[string(topicBytes(tp))]; ok {
 				started = append(started, tp)
 			}
@@ -211,12 +239,12 @@ func boxReplay(ti int, sc boxScenario, path []string) []obj {
 			panicked = p
 		default:
 		}
-		pend, started, infl := snapshot()
+		pend, hand, started, infl := snapshot()
 		mu.Lock()
 		h := append([]int{}, handed...)
 		f := append([]string{}, fsent...)
 		mu.Unlock()
-		lines = append(lines, obj{"t": ti, "e": "step", "th": name, "pc": pc, "next": next, "pend": pend, "started": started, "infl": infl, "handed": h, "fsent": f})
+		lines = append(lines, obj{"t": ti, "e": "step", "th": name, "pc": pc, "next": next, "pend": pend, "hand": hand, "started": started, "infl": infl, "handed": h, "fsent": f})
 		return true
 	}
 	for _, name := range path {
@@ -240,6 +268,22 @@ func boxReplay(ti int, sc boxScenario, path []string) []obj {
 		}
 	}
 	return append(lines, obj{"t": ti, "e": "end", "hung": hung, "panic": panicked, "where": ""})
+}
+
+func boxMsgData(op boxOp) string {
+	if op.Ack {
+		return strconv.Itoa(op.ID) + "a"
+	}
+	return strconv.Itoa(op.ID)
+}
+
+func boxMsgID(data string) (int, bool) {
+	ack := len(data) > 0 && data[len(data)-1] == 'a'
+	if ack {
+		data = data[:len(data)-1]
+	}
+	id, _ := strconv.Atoi(data)
+	return id, ack
 }
 
 type handlerFunc func(m *tss.IncMessage)
